@@ -209,6 +209,10 @@ func TestC08(t *testing.T) {
 							// the callback is declared with the concrete type of what it returns (func() *MyErr for an
 							// error variable): assignable to the variable, not identical with its type
 							rt = reflect.TypeOf(v)
+						} else if !exported && typ.Kind() != reflect.Interface && v != nil && rng.Chance(1, 3) {
+							// by name the variable's type is learnt from the value: a table-driven test declares its
+							// callbacks func() interface{} and returns values of the variable's own type
+							rt = reflect.TypeOf((*interface{})(nil)).Elem()
 						}
 						fn := reflect.MakeFunc(reflect.FuncOf(nil, []reflect.Type{rt}, false), func([]reflect.Value) []reflect.Value {
 							w := reflect.New(rt).Elem()
